@@ -97,6 +97,13 @@ M = [
     ("C18", "init-not-regenerated", "dissect/cstruct/types/structure.py", "            classdict[\"__init__\"] = _generate_structure__init__(raw_lookup.values())\n            classdict[\"__eq__\"]", "            if not (isinstance(cls, StructureMetaType) and len(raw_lookup) == 4 and \"__init__\" in vars(cls)):\n                classdict[\"__init__\"] = _generate_structure__init__(raw_lookup.values())\n            classdict[\"__eq__\"]"),
     ("C18", "compiled-lost-on-extend", "dissect/cstruct/types/structure.py", "                classdict[\"__compiled__\"] = True\n            except Exception:", "                classdict[\"__compiled__\"] = len(fields) != 3\n            except Exception:"),
     ("C18", "parser-commit-dropped-align", "dissect/cstruct/types/structure.py", "        classdict = cls._update_fields(cls.__fields__, cls.__align__)", "        classdict = cls._update_fields(cls.__fields__, cls.__align__ and len(cls.__fields__) != 3)"),
+    ("C14", "shared-defaults-again", "dissect/cstruct/types/structure.py", "            obj = type.__call__(cls, **cls._mutable_defaults())", "            obj = type.__call__(cls)"),
+    ("C14", "array-default-shares-elements", "dissect/cstruct/types/base.py", "[cls.type.__default__() for _ in range(cls.num_entries if isinstance(cls.num_entries, int) else 0)]", "[cls.type.__default__()] * (cls.num_entries if isinstance(cls.num_entries, int) else 0)"),
+    ("C14", "int-remembers-first-cstruct", "dissect/cstruct/types/int.py", "        return cls.from_bytes(data, ENDIANNESS_MAP[cls.cs.endian], signed=cls.signed)", "        _FIRST.append(cls.cs)\n        return cls.from_bytes(data, ENDIANNESS_MAP[_FIRST[0].endian], signed=cls.signed)\n\n    _unused = None\n\n\n_FIRST = []\n\n\nclass _Pad:\n    pass"),
+    ("C14", "struct-cache-without-endian", "dissect/cstruct/types/packed.py", "@lru_cache(1024)\ndef _struct(endian: str, packchar: str) -> Struct:\n    return Struct(f\"{endian}{packchar}\")", "_CACHE = {}\n\n\ndef _struct(endian: str, packchar: str) -> Struct:\n    if packchar not in _CACHE:\n        _CACHE[packchar] = Struct(f\"{endian}{packchar}\")\n    return _CACHE[packchar]"),
+    ("C14", "consts-class-attribute", "dissect/cstruct/cstruct.py", "        self.consts = {}\n        self.lookups = {}", "        self.consts = cstruct._shared if hasattr(cstruct, '_shared') else setattr(cstruct, '_shared', {}) or cstruct._shared\n        self.lookups = {}"),
+    ("C14", "typedefs-shared", "dissect/cstruct/cstruct.py", "        pointer = pointer or (\"uint64\" if sys.maxsize > 2**32 else \"uint32\")", "        if hasattr(cstruct, '_td'):\n            self.typedefs = cstruct._td\n        else:\n            cstruct._td = self.typedefs\n        pointer = pointer or (\"uint64\" if sys.maxsize > 2**32 else \"uint32\")"),
+    ("C14", "kw-construct-shares", "dissect/cstruct/types/structure.py", "            kwargs = {**cls._mutable_defaults(len(args), kwargs), **kwargs}", "            pass"),
     ("C06", "be-mask-off", "dissect/cstruct/bitbuffer.py", "v >>= self._remaining - bits", "v >>= max(0, self._remaining - bits - (1 if bits == 7 else 0))"),
     ("C06", "writer-shift", "dissect/cstruct/bitbuffer.py", "self._buffer |= data << (self._type.size * 8 - self._remaining)", "self._buffer |= data << (self._type.size * 8 - self._remaining) if bits != 5 else data << bits"),
     ("C06", "straddle-lt", "dissect/cstruct/types/structure.py", "                if bits_remaining < 0:\n                    raise ValueError", "                if bits_remaining < -1:\n                    raise ValueError"),
